@@ -29,12 +29,13 @@ var ErrInjected = errors.New("simulated entropy failure")
 type FaultKind int
 
 const (
-	None      FaultKind = iota
-	ErrAt               // return (0, err) at logical read k
-	PartialAt           // return (m<n, err) at logical read k
-	ShortAt             // return (m<n, nil) at logical read k, remainder on following calls
-	StallAt             // return (0, nil) Param times, then serve
-	Poison              // every read fails
+	None         FaultKind = iota
+	ErrAt                  // return (0, err) at logical read k
+	PartialAt              // return (m<n, err) at logical read k
+	ShortAt                // return (m<n, nil) at logical read k, remainder on following calls
+	StallAt                // return (0, nil) Param times, then serve
+	Poison                 // every read fails
+	ValueThenErr           // logical read K returns Param-valued bytes (0x00 / 0xFF ...); every later read fails
 )
 
 type Fault struct {
@@ -202,6 +203,23 @@ func (s *Source) Read(p []byte) (int, error) {
 		s.Log = append(s.Log, ReadRec{s.party, s.op, n, k})
 	}
 	blk := Block(s.seed, s.stream, s.party, s.op, n, k)
+	if f.Kind == ValueThenErr {
+		switch {
+		case idx == f.K:
+			s.Fired++
+			for i := range p {
+				p[i] = byte(f.Param)
+			}
+			return n, nil
+		case idx > f.K:
+			s.Fired++
+			err := f.Err
+			if err == nil {
+				err = ErrInjected
+			}
+			return 0, err
+		}
+	}
 	if f.Kind != None && f.K == idx {
 		switch f.Kind {
 		case ErrAt:
